@@ -3,6 +3,8 @@
 cd "$(dirname "$(readlink -f "$0")")" || exit 2
 export CARGO_NET_OFFLINE=true
 python3 - <<'PY'
-from vlib import core
+from vlib import core, tools, apidriver
 core.build_lalrpop()
+tools.build()
+apidriver.build()
 PY
